@@ -59,7 +59,8 @@ func getRequestHeaderValue(r *http.Request, name string) *value.String {
 	name, key, _ = strings.Cut(name, ":")
 	v := r.Header.Get(name)
 	if v == "" {
-		return &value.String{IsNotSet: !r.IsAssigned(name)}
+		// An empty header has no sub-field
+		return &value.String{IsNotSet: key != "" || !r.IsAssigned(name)}
 	}
 
 	if key == "" {
@@ -84,7 +85,8 @@ func getResponseHeaderValue(r *http.Response, name string) *value.String {
 	name, key, _ = strings.Cut(name, ":")
 	v := r.Header.Get(name)
 	if v == "" {
-		return &value.String{IsNotSet: !r.IsAssigned(name)}
+		// An empty header has no sub-field
+		return &value.String{IsNotSet: key != "" || !r.IsAssigned(name)}
 	}
 
 	if key == "" {
